@@ -23,6 +23,22 @@ observes (from a controller thread) whether the blocked client call comes
 back, how, and which runtime processes are still alive `bound` seconds later.
 It prints exactly ONE json line on its stdout and leaves with os._exit.
 
+Result keys: 'client' ('raised'|'returned'|'hang'), 'exc_type', 'exc_text',
+'exc_cause', 'raised_in', 'client_seconds' (kill -> end of the call; negative
+if the call ended before the kill), 'call_seconds', 'returned_repr',
+'result_complete', 'second_call' (+'second_exc_type/_text'; only meaningful
+when the first call raised: otherwise it races with the shutdown),
+'survivors' ([{'pid','role','boss','status','threads',
+'cpu_seconds_since_kill'}] alive `bound` s after the kill), 'exit_seconds'
+{pid: s}, 'all_exited_seconds', 'kill_time', 'stop_time', 'victim_pid',
+'victim_role', 'victim_boss', 'root_worker_pid', 'victim_is_root_worker',
+'roles' {pid: role}, 'phase_reached', 'flag_seconds', 'map_rounds_at_kill',
+'startup_seconds', 'ports', 'bqskit_file', 'client_stack' (on a hang); added
+by run_case: 'runner_timeout', 'leftover_killed', 'lock_wait_seconds',
+'lock_held_seconds', 'attempts', 'repo', 'infra', 'infra_reason' (or only
+'lock_busy').  'error' + 'error_text' replace the scenario keys when the
+runner could not do its job (always infra).
+
 Case keys (all optional, see `normalize_case` for defaults):
   mode          'attached' | 'detached' | 'detached3'
   workers       workers per (level-1) manager / attached server      (1..3)
@@ -43,6 +59,14 @@ Case keys (all optional, see `normalize_case` for defaults):
                 'during'/'during_shutdown', prefer the worker that runs the
                 root task / one that does not (falls back to the seed)
   bound         seconds the client call / the runtime get to finish (30)
+  stop_wait     seconds between SIGSTOP and SIGKILL for stop_first (1.0)
+  flag_wait     max seconds to wait for the workload to be in full swing
+                before the `delay` countdown starts (90).  On a loaded
+                machine a worker needs 15-90 s to unpickle its first task
+                (it imports bqskit.compiler/ir then).  For 'map' the runner
+                waits for the first COMPLETED map round (every worker has
+                imported, traffic flows; 'map_rounds_at_kill'), unless
+                'wait_rounds': false.
   verbose       0..3: '-v' flags of the runtime processes; with
                 'keep_logs': true the runtime's stderr is kept in
                 /tmp/C14-scratch/procs/<run>/stderr.log ('log_path')
